@@ -1,72 +1,192 @@
 import Asts.Model.Sync
+import Asts.Spec.Reconcile
 namespace Asts
 
-def revWrites (cs : List RevCall) : List RevCall :=
-  cs.filter fun | .list | .getSet | .get _ => false | _ => true
-def revTarget : RevCall → Option String
-  | .syncLabels n | .adopt n | .renumber n _ | .delete n => some n
-  | _ => none
-def deletesOf (cs : List RevCall) : List String := cs.filterMap fun | .delete n => some n | _ => none
+/-! Decidable predicates for the properties that read one whole `sync`: C08 (store half), C09 (failures are reported),
+    C10, C11, C13, plus C12/C15 at this level. They are evaluated on what an API-level recorder observes: the ordered
+    call log (`verb:resource:name`, `list:revs`, `get:set`, `updatestatus`), the status written, a digest of the
+    ControllerRevisions left in the API, the outcome, and whether any cached object was mutated. -/
 
-/-- C11 -/
-def C11 (i : SyncIn) (o : SyncOut) : Bool :=
-  (if i.paused then o.revCalls.isEmpty && o.patches.isEmpty && o.acts.isEmpty && o.status.isNone else true) &&
-  (if i.view.deleting then
-     o.acts.isEmpty && o.patches.isEmpty &&
-     o.revCalls.all (fun | .adopt _ | .syncLabels _ => false | _ => true)
-   else true)
+/-- digest of a stored ControllerRevision after the sync -/
+structure RevD where
+  name : String
+  number : Int
+  owner : Owner
+  sel : Bool
+  marker : Bool
+  data : String
+  deriving DecidableEq, Repr
 
-/-- C10, pods half -/
-def C10pods (i : SyncIn) (o : SyncOut) : Bool :=
-  o.patches.all fun
-    | .adopt id => (i.pods.find? (·.pod.id == id)).any (fun c =>
-        c.owner == .none && c.selMatch && c.member && !c.pod.terminating && !i.view.deleting && i.freshUidOk && !i.freshDeleting)
-    | .release id => (i.pods.find? (·.pod.id == id)).any (fun c =>
-        c.owner == .self && !(c.selMatch && c.member) && !i.view.deleting)
+structure SyncObs where
+  log    : List String
+  status : Option Status
+  revs   : List RevD
+  out    : String          -- ok | err | panic
+  mutated : Bool
+  deriving Repr
 
-/-- C10, revisions half: nothing owned by somebody else is written -/
-def C10revs (i : SyncIn) (o : SyncOut) : Bool :=
-  (revWrites o.revCalls).all fun c =>
-    match revTarget c with
-    | some n => (i.store.find? (·.name == n)).all (fun r => r.owner != .other)
-    | none => true
+/-- observation of a model run -/
+def SyncOut.observe (o : SyncOut) : SyncObs :=
+  { log := o.log, status := o.status,
+    revs := o.store.map (fun r => { name := r.name, number := r.number, owner := r.owner, sel := r.selMatch, marker := r.marker, data := r.data }),
+    out := (match o.outcome with | .ok => "ok" | .err => "err" | .panic _ => "panic"), mutated := false }
+
+structure Entry where
+  verb : String
+  res  : String
+  name : String
+  deriving Repr
+
+def parseEntry (e : String) : Entry :=
+  match e.splitOn ":" with
+  | [v, r, n] => { verb := v, res := r, name := n }
+  | [v, r] => { verb := v, res := r, name := "" }
+  | _ => { verb := e, res := "", name := "" }
+
+/-- (entry, index, did an injected fault hit this call?) -/
+def annotate (plan : List Fault) (log : List String) : List (Entry × Nat × Option ErrKind) :=
+  let rec go (seen : List String) (idx : Nat) : List String → List (Entry × Nat × Option ErrKind)
+    | [] => []
+    | e :: rest =>
+      let occ := (seen.filter (· == e)).length
+      (parseEntry e, idx, (plan.find? (fun f => f.key == e && f.occ == occ)).map (·.kind)) :: go (e :: seen) (idx + 1) rest
+  go [] 0 log
+
+def isPodWrite (e : Entry) : Bool := (e.res == "pod" || e.res == "pvc") && e.verb != "get" && e.verb != "list"
+def isRevWrite (e : Entry) : Bool := e.res == "rev" && e.verb != "get" && e.verb != "list"
+
+def freshOk (f : Fresh) : Bool := !f.gone && f.uidOk && !f.deleting
+
+/-- the set's own pods: controlled by it, matching, named after it -/
+def ownPod (c : CPod) : Bool := c.owner == .self && c.selMatch && c.member
+
+/-- C11: a paused set sees no call at all; a set carrying a deletion timestamp (in the cache) sees no pod or claim write,
+    no adoption or release patch of pods or revisions, and no revision changes labels or owner. -/
+def C11paused (i : SyncIn) (o : SyncObs) : Bool :=
+  !i.paused || (o.log.isEmpty && o.status.isNone)
+
+def C11deleting (i : SyncIn) (o : SyncObs) : Bool :=
+  !i.view.deleting ||
+  ((o.log.map parseEntry).all (fun e => !isPodWrite e && e.verb != "patch") &&
+   i.store.all (fun r => (o.revs.find? (·.name == r.name)).all (fun d => d.owner == r.owner && d.sel == r.selMatch)))
+
+/-- C10, pods: an adoption patch needs an unowned, matching, member, non-terminating pod, a set that is not being deleted,
+    and an earlier uncached read of the set, unfailed, that found the same uid and no deletion timestamp; a release patch
+    needs a pod this set controls that no longer matches; nothing owned by somebody else is patched, deleted or updated. -/
+def C10pods (i : SyncIn) (plan : List Fault) (o : SyncObs) : Bool :=
+  let ann := annotate plan o.log
+  ann.all fun (e, idx, _) =>
+    if e.res == "pod" && e.verb == "patch" then
+      match i.pods.find? (·.name == e.name) with
+      | none => false
+      | some c =>
+        match c.owner with
+        | .other => false
+        | .none =>
+          c.selMatch && c.member && !c.pod.terminating && !i.view.deleting && freshOk i.fresh &&
+          ann.any (fun (g, j, k) => g.verb == "get" && g.res == "set" && j < idx && k.isNone)
+        | .self => !(c.selMatch && c.member) && !i.view.deleting
+    else if e.res == "pod" && (e.verb == "delete" || e.verb == "update") then
+      match i.pods.find? (·.name == e.name) with
+      | none => true                                   -- an object created by this very sync, or renamed by the identity fix
+      | some c =>
+        c.owner != .other && c.selMatch && c.member &&
+        (c.owner == .self || ann.any (fun (g, j, k) => g.verb == "patch" && g.res == "pod" && g.name == e.name && j < idx && k.isNone))
+    else true
+
+/-- C10, revisions and the set itself: no write targets a revision controlled by somebody else; the set is written only
+    through its status; cached objects are left alone. -/
+def C10revs (i : SyncIn) (o : SyncObs) : Bool :=
+  (o.log.map parseEntry).all fun e =>
+    if isRevWrite e && e.verb != "create" then (i.store.find? (·.name == e.name)).all (fun r => r.owner != .other)
+    else true
+
+def C10set (o : SyncObs) : Bool :=
+  (o.log.map parseEntry).all (fun e => !(e.res == "set" && e.verb != "get"))
+
+def C10cache (o : SyncObs) : Bool := !o.mutated
+
+/-- revisions that belong to the set for the purpose of history: listed (selector or marker), and controlled by it —
+    at entry, or adopted earlier in this sync -/
+def ownListed (i : SyncIn) (plan : List Fault) (o : SyncObs) : List Rev :=
+  let ann := annotate plan o.log
+  (dedupByName (i.store.filter (fun r => r.selMatch || r.marker)) []).filter fun r =>
+    r.owner == .self ||
+    (r.owner == .none && ann.any (fun (g, _, k) => g.verb == "patch" && g.res == "rev" && g.name == r.name && k.isNone))
+
+/-- names the reconcile treats as live: the current revision it started from, the update revision, pod labels -/
+def liveNames (i : SyncIn) (plan : List Fault) (o : SyncObs) : List String :=
+  let ann := annotate plan o.log
+  let upd := match o.status with | some s => s.updateRev | none => i.stored.updateRev
+  let listed := (i.store.filter (fun r => r.selMatch || r.marker)).map (·.name)
+  let cur := if listed.contains i.stored.currentRev then i.stored.currentRev else upd
+  -- the set's pods: controlled by it, or adopted earlier in this sync
+  cur :: upd :: (i.pods.filter (fun c => c.selMatch && c.member && (c.owner == .self ||
+      (c.owner == .none && ann.any (fun (g, _, k) => g.verb == "patch" && g.res == "pod" && g.name == c.name && k.isNone))))).map (·.pod.rev)
 
 /-- C13 -/
-def C13 (i : SyncIn) (o : SyncOut) : Bool :=
-  let dels := deletesOf o.revCalls
-  if dels.isEmpty then
-    -- after a successful reconcile at most `limit` unused revisions of this set remain
-    (if o.outcome == .ok && o.upd != "" then
-       match i.historyLimit with
-       | some lim =>
-         let live := o.cur :: o.upd :: o.claimed.map (·.rev)
-         let unused := (o.store.filter (fun r => r.owner == .self && (r.selMatch || r.marker) && !live.contains r.name))
-         (unused.length : Int) ≤ lim
-       | none => true
+def C13 (i : SyncIn) (plan : List Fault) (o : SyncObs) : Bool :=
+  let ann := annotate plan o.log
+  let dels := ann.filterMap fun (e, _, k) => if e.res == "rev" && e.verb == "delete" then some (e.name, k.isNone) else none
+  let live := liveNames i plan o
+  let own := ownListed i plan o
+  let unused := sortRevs (own.filter (fun r => !live.contains r.name))
+  match i.historyLimit with
+  | none => true
+  | some lim =>
+    let budget : Int := unused.length - lim
+    -- targets: own, unused, each once, only beyond the limit, oldest first
+    dels.all (fun (n, _) => unused.any (·.name == n)) &&
+    (dels.map (·.1)).eraseDups.length == dels.length &&
+    (dels.isEmpty || ((unused.length : Int) > lim && (dels.length : Int) ≤ budget)) &&
+    (dels.map (·.1)) == ((unused.take dels.length).map (·.name)) &&
+    -- afterwards: a sync that ran to the end leaves at most `lim` unused own revisions
+    (if o.out == "ok" && !i.paused && i.selectorOk then
+       let left := o.revs.filter (fun d => own.any (·.name == d.name) && !live.contains d.name)
+       (left.length : Int) ≤ max lim 0
      else true)
-  else
-    let live := o.cur :: o.upd :: o.claimed.map (·.rev)
-    let mine := i.store.filter (fun r => (r.selMatch || r.marker) && r.owner != .other)   -- own or adopted in this sync
-    let unused := mine.filter (fun r => !live.contains r.name)
-    dels.eraseDups.length == dels.length &&
-    dels.all (fun n => unused.any (·.name == n)) &&
-    (match i.historyLimit with
-     | some lim => (unused.length : Int) > lim && (dels.length : Int) ≤ unused.length - lim
-     | none => false)
 
-/-- C08, store half: after a successful reconcile the update revision is stored and records the current template;
-    an unchanged template (newest listed revision already records it, hash labels compatible) adds and renumbers nothing -/
-def C08 (h : Hashing) (i : SyncIn) (o : SyncOut) : Bool :=
-  (if o.outcome == .ok && o.upd != "" then
-     (o.store.find? (·.name == o.upd)).any (fun r => r.data == i.template)
+/-- C08, store half -/
+def C08 (h : Hashing) (i : SyncIn) (o : SyncObs) : Bool :=
+  let es := o.log.map parseEntry
+  let upd := match o.status with | some s => s.updateRev | none => i.stored.updateRev
+  -- after a successful reconcile the update revision is stored and records the current template
+  (if o.out == "ok" && !i.paused && i.selectorOk then
+     (o.revs.find? (·.name == upd)).any (fun d => d.data == i.template)
    else true) &&
+  -- a name collision never overwrites: every revision that is still there records what it recorded before
+  i.store.all (fun r => (o.revs.find? (·.name == r.name)).all (fun d => d.data == r.data)) &&
+  -- an unchanged template adds no revision: the newest listed revision already records it (hash labels compatible)
   (let listed := sortRevs (listRevisions i.store)
    match listed.getLast? with
    | some l =>
-     let compat := match l.hashNum, h.hashNumOf i.template i.collisionCount with | some a, some b => a == b | _, _ => true
-     if l.data == i.template && compat then
-       o.revCalls.all (fun | .create _ | .renumber _ _ => false | _ => true)
-     else true
-   | none => true)
+     let compat := match l.hashNum, h.hashNumOf i.template (i.collisionCount.getD 0) with | some a, some b => a == b | _, _ => true
+     if l.data == i.template && compat then es.all (fun e => !(e.res == "rev" && e.verb == "create")) else true
+   | none => true) &&
+  -- reverting to an earlier template re-uses that revision (hash labels compatible), renumbered above all others
+  (let listed := listRevisions i.store
+   let compat (r : Rev) := match r.hashNum, h.hashNumOf i.template (i.collisionCount.getD 0) with | some a, some b => a == b | _, _ => true
+   if listed.any (fun r => r.data == i.template && compat r) then
+     es.all (fun e => !(e.res == "rev" && e.verb == "create")) &&
+     (if o.out == "ok" && !i.paused && i.selectorOk then
+        (o.revs.find? (·.name == upd)).any (fun d => listed.all (fun r => r.name == upd || (o.revs.find? (·.name == r.name)).all (fun q => q.number ≤ d.number)))
+      else true)
+   else true)
+
+/-- C09: a sync that returns success has swallowed no failure except the ones that are swallowed on purpose and retried
+    elsewhere: conflicts absorbed by a retry loop, NotFound on an adoption/release patch, Invalid on a release patch,
+    AlreadyExists on a revision create, and the refreshing read after a failed renumbering. -/
+def C09reported (i : SyncIn) (plan : List Fault) (o : SyncObs) : Bool :=
+  if o.out != "ok" then true else
+  let ann := annotate plan o.log
+  (ann.zip (none :: ann.map some)).all fun ((e, _, k), prev) =>
+    match k with
+    | none => true
+    | some kind =>
+      (kind == .conflict && (e.verb == "updatestatus" || (e.verb == "update" && (e.res == "rev" || e.res == "pod")))) ||
+      (kind == .notFound && e.verb == "patch" && e.res == "pod") ||
+      (kind == .invalid && e.verb == "patch" && e.res == "pod" && (i.pods.find? (·.name == e.name)).any (fun c => c.owner == .self)) ||
+      (kind == .alreadyExists && e.verb == "create" && e.res == "rev") ||
+      (e.verb == "get" && e.res == "rev" && (match prev with | some (p, _, pk) => p.verb == "update" && p.res == "rev" && p.name == e.name && pk.isSome | none => false))
 
 end Asts
